@@ -106,9 +106,7 @@ def is_alloc(path):
 
 NONDET = re.compile(
     r"^(std::hash::RandomState::new|std::collections::hash_map::RandomState::new|<std::hash::RandomState as std::default::Default>::default"
-    r"|std::collections::hash_map::DefaultHasher::new|std::hash::DefaultHasher::new|<std::hash::DefaultHasher as std::default::Default>::default"
-    r"|std::collections::HashMap::<K, V>::new|std::collections::HashSet::<T>::new|std::collections::HashMap::<K, V>::with_capacity|std::collections::HashSet::<T>::with_capacity"
-    r"|<std::collections::HashMap<K, V, S> as std::default::Default>::default|<std::collections::HashSet<T, S> as std::default::Default>::default"
+    r"|std::hash::BuildHasher::hash_one|<std::hash::RandomState as std::hash::BuildHasher>::build_hasher|<std::hash::RandomState as std::hash::BuildHasher>::hash_one"
     r"|std::time::SystemTime::now|std::time::Instant::now|std::env::.*|std::thread::current|std::process::id|std::thread::Thread::id"
     r"|std::sync::atomic::.*|std::thread::spawn|std::thread::Builder::spawn|std::thread::available_parallelism"
     r"|std::ptr::addr_of|std::ptr::<impl \*const T>::addr|std::ptr::<impl \*mut T>::addr|std::ptr::<impl \*const T>::expose_provenance"
